@@ -1,7 +1,7 @@
 """jobs.py - which engine runs, with which configuration, for each property."""
 
 ENGINE_INFO = {
-    "real_code": "the whole cimba library built from /repo's working tree (all src/*.c, the Linux port, both .asm files, generated ziggurat tables), linked statically into the harness",
+    "real_code": "the whole cimba library built from /repo's working tree (all src/*.c, the Linux port, both .asm files, generated ziggurat tables) with -DCIMBA_VERIF, linked statically into the harness; the one guarded hook (two calls in cmi_mempool_alloc / cmi_mempool_free, commit 9d6c11b) only tells the harness which pool object was handed out or returned, so that the contents of pooled objects can be marked dead (overwritten; poisoned under ASan)",
     "stubs": ["cmi_cpu_cores (returns the planned worker count, experiment/rng engines only)",
               "pthread_create/pthread_join (thin link-time wrappers adding the baton scheduler)",
               "cmb_random_hwseed (never called)"],
